@@ -433,6 +433,14 @@ def scalar_cases(tier):
             x = r + k * L
             if x < (1 << 512):
                 out.append((["sc_reduce %s" % H(x.to_bytes(64, "little"))], [le(r).hex()], None))
+    # committed crafted inputs (tools/gen_scalar_corners.py): wide values for which a carry / borrow of the final carry chains of the
+    # 21-bit-limb reduction is non-zero in limbs 5..11, and for which the top-limb fold happens with either sign
+    import json as _json
+    import os as _os
+    kp = _os.path.join(_os.path.dirname(_os.path.dirname(_os.path.abspath(__file__))), "models", "kats", "scalar_corners.json")
+    for hx in _json.load(open(kp))["reduce"]:
+        x = int.from_bytes(bytes.fromhex(hx), "little")
+        out.append((["sc_reduce h:%s" % hx], [le(x % L).hex()], None))
     canon = [0, 1, L - 1, L, L + 1, 1 << 252, (1 << 253) - 1, (1 << 255) - 1, (1 << 256) - 1, 2 * L, L - 2, (1 << 252) - 1]
     lb = L.to_bytes(32, "little")
     for i in range(32):
